@@ -48,10 +48,10 @@ def dedupe_pending_only(prog, an, rep):
     tests = [n for n in c.nodes.values() if n.kind == 'test']
     rep.evaluated()
     ok = len(tests) == 1 and isinstance(tests[0].ast, ast.Compare) and \
-        len(tests[0].ast.ops) == 1 and \
-        isinstance(tests[0].ast.ops[0], (ast.NotIn, ast.In)) and \
-        src(tests[0].ast.left) == f.params[1] and \
-        src(tests[0].ast.comparators[0]) == 'self.task_queue.queue'
+        len(tests[0].matched.ops) == 1 and \
+        isinstance(tests[0].matched.ops[0], (ast.NotIn, ast.In)) and \
+        src(tests[0].matched.left) == f.params[1] and \
+        src(tests[0].matched.comparators[0]) == 'self.task_queue.queue'
     rep.check(ok, R, f.qname + ': a job is dropped only if an equal job is '
               'in the pending queue', f.where(), 'put_job decides on %s: a '
               'job equal to the running or a finished one would be dropped '
@@ -59,14 +59,14 @@ def dedupe_pending_only(prog, an, rep):
               detail=str([src(t.ast) for t in tests]))
     if ok:
         t = tests[0]
-        fresh = c.branch(t, isinstance(t.ast.ops[0], ast.NotIn))
+        fresh = c.branch(t, isinstance(t.matched.ops[0], ast.NotIn))
         for p_ in puts:
             o, path = c.must_pass(fresh, p_.id)
             rep.check(o, R, f.qname + ': the job is enqueued when no equal '
                       'job is pending', f.where(p_), 'enqueue is not on the '
                       '"not pending" edge', path=c.describe_path(path))
         o, path = c.must_pass([p_.id for p_ in puts] +
-                              c.branch(t, isinstance(t.ast.ops[0], ast.In)),
+                              c.branch(t, isinstance(t.matched.ops[0], ast.In)),
                               c.exit, use_exc=False)
         rep.check(o, R, f.qname + ': every return has enqueued or found a '
                   'pending duplicate', f.where(), 'put_job can return '
